@@ -2,6 +2,7 @@ import GdcVerif.Driver.Util
 import GdcVerif.Model.JpegMarkers
 import GdcVerif.Model.JlsHeader
 import GdcVerif.Model.J2kHeader
+import GdcVerif.Model.J2kMct
 /-! Driver ops of the C08/C09 parser models. -/
 namespace Drv.Parsers
 open Drv PC
@@ -14,7 +15,28 @@ def resStr : Res → String
   | .panic _ => "panic"
   | .beyond => "beyond"
 
+def semi (s : String) : List String := if s = "-" then [] else s.splitOn ";"
+
+def mctSeg? (s : String) : Option Mct.MctSeg :=
+  match s.splitOn ":" with
+  | [i, a, e, p, vs] =>
+    match i.toNat?, a.toNat?, e.toNat?, p.toNat?, parseInts vs with
+    | some i, some a, some e, some p, some vs => some { index := i, arrayType := a, elemType := e, vals := vs, pad := p }
+    | _, _, _, _, _ => none
+  | _ => none
+
+def mccSeg? (s : String) : Option Mct.MccSeg :=
+  match s.splitOn ":" with
+  | [i, ct, ids, outs, d, o, rv] =>
+    match i.toNat?, ct.toNat?, parseInts ids, parseInts outs, d.toNat?, o.toNat?, rv.toNat? with
+    | some i, some ct, some ids, some outs, some d, some o, some rv =>
+      some { index := i, collType := ct, numComps := ids.length, compIDs := ids.map Int.toNat, outIDs := outs.map Int.toNat,
+             decorr := d, offs := o, reversible := rv = 1 }
+    | _, _, _, _, _, _, _ => none
+  | _ => none
+
 /-- ops:
+  `mct-apply comps mct;… mcc;… mco;…` → `ok v0,…` | `panic`   (decoder-side Part-2 transform of a zero image, one value per component)
   `jm-readmarker hex`      → `ok <marker> <unread>` | `err`
   `jm-readsegment hex`     → `ok <payload length> <unread>` | `err`
   `jm-build b0,…,b15 n`    → `ok` | `err` | `panic`   (HuffmanTable.Build with len(Values) = n)
@@ -61,6 +83,13 @@ def step? : List String → Option String
           ++ " | " ++ sp c ++ " | " ++ sp q
       | _, _, _ => "bad-model"
     | (_, r) => resStr r
+  | ["mct-apply", comps, a, b, c] =>
+    some <| match comps.toNat?, (semi a).mapM mctSeg?, (semi b).mapM mccSeg?, (semi c).mapM parseInts with
+    | some comps, some mct, some mcc, some mco =>
+      match Mct.transform { mct := mct, mcc := mcc, mco := mco.map (·.map Int.toNat) } comps (List.replicate comps 0) with
+      | some v => "ok " ++ intsToStr v
+      | none => "panic"
+    | _, _, _, _ => "bad-op"
   | _ => none
 
 end Drv.Parsers
